@@ -810,7 +810,7 @@ func (g *Gen) trCall(x ECall, env *Env) Val {
 			trFail("has on non-map %s", m.Ty)
 		}
 		has, _, ks, _ := mapArrNames(mt)
-		return Val{T: fmt.Sprintf("(select (select %s %s) %s)", g.arr(env.heap, has, "(Array "+ks+" Bool)"), m.T, k.T), Ty: tyBool}
+		return Val{T: fmt.Sprintf("(and (not (= %[2]s 0)) (select (select %[1]s %[2]s) %[3]s))", g.arr(env.heap, has, "(Array "+ks+" Bool)"), m.T, k.T), Ty: tyBool}
 	case "alloc":
 		return Val{T: fmt.Sprintf("(select %s %s)", g.arr(env.heap, "alloc", "Bool"), arg(0).T), Ty: tyBool}
 	case "wasalloc":
